@@ -5,6 +5,8 @@ import (
 	"go/ast"
 	"go/token"
 	"go/types"
+	"regexp"
+	"sort"
 	"strings"
 
 	"dstverif/load"
@@ -187,6 +189,74 @@ func (e *Env) RFragOrder() {
 		})
 		e.Run.Check("R-FRAG", "every comment of the file becomes a fragment with its own text and position", e.Prog.Pos(lit.Pos()), ok,
 			"the first statement of the loop over a comment group's List must be f.addCommentFragment(c.Text, c.Slash): a comment that is skipped is dropped from the output")
+	}
+	// avoid ranges: every loop that marks lines in the avoid set runs from the first to the last
+	// line of ONE entity (the comment / string / bad node whose text was just tested): start and
+	// end positions, read through the locals that hold them, name the same variable.
+	if lit != nil {
+		undo := c.InstallReachingIn(lit.Body)
+		posLine := regexp.MustCompile(`^f\.Fset\.Position\((.*)\)\.Line$`)
+		ident := regexp.MustCompile(`([A-Za-z_]\w*)\.`)
+		nAvoid := 0
+		ast.Inspect(lit.Body, func(n ast.Node) bool {
+			fs, ok := n.(*ast.ForStmt)
+			if !ok || fs.Init == nil || fs.Cond == nil {
+				return true
+			}
+			marks := false
+			ast.Inspect(fs.Body, func(m ast.Node) bool {
+				if as, ok := m.(*ast.AssignStmt); ok {
+					for _, l := range as.Lhs {
+						if ix, ok := l.(*ast.IndexExpr); ok {
+							if mt, ok := info.TypeOf(ix.X).Underlying().(*types.Map); ok && types.Identical(mt.Key(), types.Typ[types.Int]) && types.Identical(mt.Elem(), types.Typ[types.Bool]) {
+								marks = true
+							}
+						}
+					}
+				}
+				return true
+			})
+			if !marks {
+				return true
+			}
+			init, ok1 := fs.Init.(*ast.AssignStmt)
+			cond, ok2 := fs.Cond.(*ast.BinaryExpr)
+			if !ok1 || !ok2 || len(init.Rhs) != 1 {
+				return true
+			}
+			nAvoid++
+			from, to := c.ExprStr(init.Rhs[0]), c.ExprStr(cond.Y)
+			mf, mt := posLine.FindStringSubmatch(from), posLine.FindStringSubmatch(to)
+			key := fmt.Sprintf("fragment: avoided line range #%d spans one entity", nAvoid)
+			if mf == nil || mt == nil {
+				e.Run.Check("R-FRAG", key, e.Prog.Pos(fs.Pos()), false, "bounds `"+from+"` .. `"+to+"` are not lines of positions in the file set")
+				return true
+			}
+			roots := map[string]bool{}
+			for _, inner := range []string{mf[1], mt[1]} {
+				for _, m := range ident.FindAllStringSubmatch(inner, -1) {
+					if m[1] != "token" {
+						roots[m[1]] = true
+					}
+				}
+			}
+			// the text test that selects the entity (strings.HasPrefix(X.Text|X.String, …)) names it too
+			if guard, okg := pathCond(c, lit.Body.List, fs); okg {
+				for _, m := range regexp.MustCompile(`strings\.HasPrefix\(([A-Za-z_]\w*)\.`).FindAllStringSubmatch(guard, -1) {
+					roots[m[1]] = true
+				}
+			}
+			var names []string
+			for r := range roots {
+				names = append(names, r)
+			}
+			sort.Strings(names)
+			e.Run.Check("R-FRAG", key, e.Prog.Pos(fs.Pos()), len(names) == 1,
+				"lines "+from+" .. "+to+" mix the extents of different things ("+strings.Join(names, ", ")+"): newlines between them are suppressed (or newlines inside are kept) and the text is printed on other lines")
+			return true
+		})
+		undo()
+		e.Run.Floor("R-FRAG", "avoided line ranges in fragment()", nAvoid, 2)
 	}
 	// link(): `for !found { try++; switch try { ...; default: panic } }`
 	lk := load.FuncDecl(pkg, "fileDecorator", "link")
